@@ -87,6 +87,7 @@ fn main() {
                 tier,
                 seed,
             };
+            let _ = CURRENT_CFG.set(cfg.clone());
             // 1. replay tier: committed inputs
             let mut confirmed: Vec<String> = vec![];
             let mut replay_violations: Vec<Violation> = vec![];
